@@ -8,6 +8,7 @@ from plumpy.futures import CancellableAction
 from plumpy.processes import Process
 from plumpy import exceptions
 import plumpy.process_states
+import plumpy.lang
 import plumpy.workchains
 
 CONFIG = {
@@ -42,7 +43,7 @@ def wf_cleanups(p):
     return p._cleanups is None or (is_list(p._cleanups) and owned(p._cleanups))
 
 
-@contract('plumpy.processes.Process.on_close', props=['C02'])
+@contract('plumpy.processes.Process.on_close', props=['C02', 'C01', 'C16'])
 def on_close(self):
     requires(wf_cleanups(self))
     n0 = len(calls())
@@ -57,7 +58,7 @@ def on_close(self):
     loop_modifies(0, user_effects)
 
 
-@contract('plumpy.processes.Process.close', props=['C02'])
+@contract('plumpy.processes.Process.close', props=['C02', 'C16'])
 def close(self):
     requires(wf_cleanups(self))
     modifies(user_effects, self._cleanups, self._event_callbacks, self._closed)
@@ -129,13 +130,24 @@ def callback_excepted(self, _callback, exception, trace):
     replay('terminal_is_final', 'late_callback_failure')
 
 
-@contract('plumpy.processes.Process.resume', props=['C01', 'C06'])
+@contract('plumpy.processes.Process.resume', props=['C01', 'C06', 'C13'])
 def resume(self, *args):
+    """resume(v) hands exactly v (also None) to the waiting state, resume() hands nothing (the NULL marker); the first resume of a
+    waiting step is recorded, later ones change nothing"""
     requires(wf_proc(self) and not isinstance(self, plumpy.workchains.WorkChain))
-    requires(implies(isinstance(self._state, Waiting), isinstance(self._state._waiting_future, asyncio.Future)))
-    modifies(user_effects)
+    requires(implies(isinstance(self._state, Waiting), isinstance(self._state._waiting_future, asyncio.Future)
+                     and wf_future(self._state._waiting_future)))
+    requires(len(seq(args)) <= 1)
+    wf = self._state._waiting_future
+    given = seq(args)
+    modifies(user_effects, attr(self._state._waiting_future, '_state'), attr(self._state._waiting_future, '_result'))
     ensures('state_kept', self._state is old(self._state))
+    ensures('value_handed_over_as_given', implies(type_is(self._state, Waiting) and old(wf._state) == 'PENDING',
+                                                  wf._state == 'FINISHED' and wf._exception is None
+                                                  and wf._result is (given[0] if len(given) == 1 else plumpy.lang.NULL)))
     raises(Exception, self._state is old(self._state))
+    replay('value_handed_over_as_given', 'process_resume_values')
+    replay('state_kept', 'process_resume_values')
 
 
 @contract('plumpy.processes.Process.play', props=['C01', 'C05'])
